@@ -235,19 +235,20 @@ def EnvDecision.codec : EnvDecision → Codec
 /-! ### SOAP multi-reference shapes (`id` / `href`, resolve_hrefs) -/
 
 inductive HrefShape where
-  | resolves | missing | empty | cycle | selfCycle | root | dupId | deep
+  | resolves | missing | empty | cycle | selfCycle | root | dupId | deep | dangling
   deriving Repr, DecidableEq
 
 def HrefShape.idx : HrefShape → Nat
   | .resolves => 0 | .missing => 1 | .empty => 2 | .cycle => 3 | .selfCycle => 4 | .root => 5 | .dupId => 6 | .deep => 7
+  | .dangling => 8
 
 structure HrefKey where
   soap12 : Bool
   shape : HrefShape
   deriving Repr, DecidableEq
 
-def HrefKey.idx (k : HrefKey) : Nat := (if k.soap12 then 1 else 0) * 8 + k.shape.idx
-def HrefKey.count : Nat := 2 * 8
+def HrefKey.idx (k : HrefKey) : Nat := (if k.soap12 then 1 else 0) * 9 + k.shape.idx
+def HrefKey.count : Nat := 2 * 9
 
 /-! ### what the WSGI callable reads from the environ before it looks at the request: SCRIPT_NAME, PATH_INFO, HTTP_HOST,
     url scheme / port (`_reconstruct_url`) -/
@@ -274,6 +275,27 @@ def UHost.idx : UHost → Nat | .absent => 0 | .plain => 1 | .withPort => 2 | .j
 def UrlKey.idx (k : UrlKey) : Nat :=
   (((k.fam.idx * 4 + k.script.idx) * 3 + k.path.idx) * 4 + k.host.idx) * 2 + (if k.https then 1 else 0)
 def UrlKey.count : Nat := 3 * 4 * 3 * 4 * 2
+
+/-! ### writing the fault document: what the fault text holds x the output protocol -/
+
+/-- characters in the text of the fault (it quotes request data): plain, a control character, NUL, a lone surrogate,
+    a character outside the BMP, the noncharacter U+FFFE -/
+inductive FChars where | plain | control | nul | surrogate | nonBmp | nonchar
+  deriving Repr, DecidableEq
+
+def FChars.idx : FChars → Nat | .plain => 0 | .control => 1 | .nul => 2 | .surrogate => 3 | .nonBmp => 4 | .nonchar => 5
+
+def Proto.idx : Proto → Nat
+  | .xml => 0 | .soap11 => 1 | .soap12 => 2 | .json => 3 | .yaml => 4 | .msgpack => 5 | .msgpackRpc => 6 | .httpRpc => 7
+
+structure FaultDocKey where
+  out : Proto
+  wsgi : Bool
+  chars : FChars
+  deriving Repr, DecidableEq
+
+def FaultDocKey.idx (k : FaultDocKey) : Nat := (k.out.idx * 2 + (if k.wsgi then 1 else 0)) * 6 + k.chars.idx
+def FaultDocKey.count : Nat := 8 * 2 * 6
 
 /-! ### facts -/
 
@@ -303,6 +325,9 @@ structure Facts10 where
   envTable : List EnvDecision
   /-- the measured multi-reference table of Soap11 / Soap12, `HrefKey.idx` order -/
   hrefTable : List EnvDecision
+  /-- does get_out_string / handle_error write the fault document (`proceed`) or does an exception leave (`escape`):
+      measured per output protocol, transport and class of characters in the fault text, `FaultDocKey.idx` order -/
+  faultDocTable : List PreDecision
   /-- the measured url-reconstruction table, `UrlKey.idx` order (`proceed`: the request is served as without the oddity) -/
   urlTable : List PreDecision
 
@@ -311,6 +336,8 @@ def Facts10.pre (F : Facts10) (k : PreKey) : PreDecision := F.preTable.getD k.id
 def Facts10.env (F : Facts10) (k : EnvKey) : EnvDecision := F.envTable.getD k.idx (.escape "row missing")
 
 def Facts10.href (F : Facts10) (k : HrefKey) : EnvDecision := F.hrefTable.getD k.idx (.escape "row missing")
+
+def Facts10.faultDoc (F : Facts10) (k : FaultDocKey) : PreDecision := F.faultDocTable.getD k.idx (.escape "row missing")
 
 def Facts10.url (F : Facts10) (k : UrlKey) : PreDecision := F.urlTable.getD k.idx (.escape "row missing")
 
